@@ -682,7 +682,15 @@ class FldExporter(Exporter):
         if scope == FldExporter.ScopeOfValues.AllVariables:
             if len(engine.input_variables) == 0:
                 raise ValueError("expected input variables in engine, but got none")
-            resolution = -1 + max(1, int(pow(values, (1.0 / len(engine.input_variables)))))
+            # largest number of values per variable k such that k ** inputs <= values; pow alone is off by one at
+            # perfect powers (eg, pow(64, 1 / 3) = 3.9999999999999996)
+            inputs = len(engine.input_variables)
+            k = max(1, int(pow(values, (1.0 / inputs))))
+            while k > 1 and k**inputs > values:
+                k -= 1
+            while (k + 1) ** inputs <= values:
+                k += 1
+            resolution = k - 1
         else:
             resolution = values - 1
 
